@@ -137,10 +137,19 @@ def check(c, viol, counters):
         import contextlib
         import io
 
-        with contextlib.redirect_stdout(io.StringIO()):
-            nng, _ = model_reader.read_model(c.res.out_path, model_reader.ModelReaderOptions())
+        import sys
+
+        old_limit = sys.getrecursionlimit()
+        sys.setrecursionlimit(max(old_limit, 4000))  # the reader is recursive; the command line runs it under --recursion-limit (default 4000)
+        try:
+            with contextlib.redirect_stdout(io.StringIO()):
+                nng, _ = model_reader.read_model(c.res.out_path, model_reader.ModelReaderOptions())
+        finally:
+            sys.setrecursionlimit(old_limit)
         if nng is None:
             v("output-rejected-by-vela-reader", "read_model returned None")
+    except RecursionError:
+        counters["reread_hit_recursion_limit"] = counters.get("reread_hit_recursion_limit", 0) + 1  # a resource limit of this process, not a verdict on the file
     except Exception as e:
         v("output-rejected-by-vela-reader:" + type(e).__name__, str(e)[:200])
     ssg, osg = src.subgraphs[0], out.subgraphs[0]
